@@ -1,6 +1,6 @@
 (* C16 — property theorems only: statement, `exact <lemma>`, Print Assumptions. *)
 From GL Require Import Common.Bytes Text.Quote Text.StrLit Text.NumRead Text.NumText Text.Date
-  Text.QuoteFacts Text.StrLitFacts Text.NumFacts Text.NumLexFacts Text.NumTextFacts Text.DateFacts Text.RoundFacts Text.CalFacts Text.Legacy Text.LegacyFacts.
+  Text.QuoteFacts Text.StrLitFacts Text.NumFacts Text.NumLexFacts Text.NumTextFacts Text.DateFacts Text.RoundFacts Text.CalFacts Text.Legacy Text.LegacyFacts Text.NumTokFacts.
 
 (* ---- %q ---- *)
 (* what string.format('%q', s) must produce reads back through the lexer as s, for every byte string *)
@@ -111,6 +111,13 @@ Theorem readers_same_value : forall s m e, Unsigned s m e ->
   tonumber s None = Some (m, e) /\ coerce s = Some (m, e) /\ lex_numeral s = LNVal m e.
 Proof. exact readers_same_value_lemma. Qed.
 Print Assumptions readers_same_value.
+
+(* in running text the number token is exactly the numeral when what follows cannot continue one
+   (not a letter, digit, underscore, dot): 0x1e+1 is the token 0x1e, then + *)
+Theorem number_token_extent : forall ch r m e rest, Unsigned (ch :: r) m e -> ends_here rest ->
+  scan_number ch (r ++ rest) = Some (ch :: r, rest).
+Proof. exact number_token_extent_lemma. Qed.
+Print Assumptions number_token_extent.
 
 (* the readers as they were before the fix: commits (record; Text/Legacy.v is tied to no code): the
    witnesses of DESIGN 9.1 C16-1..3 on which readers_agree failed *)
